@@ -416,7 +416,8 @@ def buildHam (T : STree) (nm : Naming) (inp : Input) (keepGene : String → Bool
   let env : Env := { T := T, nm := nm, geneTx := genes.reverse.map fun g => (g.id, g.tx) }
   let (tops, ps) ← topElems env flt inp.groups [] {}
   let topsD := tops.foldl (fun d n => dictPut d (hidOf n) n) []
-  .ok { tree := T, naming := nm, tops := topsD, genes := genes, reg := ps.reg }
+  let sp ← inp.species.mapM fun s => (resolveSpecies T nm s.name).map fun p => (s.name, p)
+  .ok { tree := T, naming := nm, tops := topsD, genes := genes, species := sp, reg := ps.reg }
 
 def load (T : STree) (nm : Naming) (inp : Input) : Except Err Ham :=
   buildHam T nm inp (fun _ => true) none
